@@ -66,6 +66,12 @@ func scenarioReset(w *world) {
 				sid := s.StreamIdentifier()
 				w.apiEvent(ep, "accept", fmt.Sprintf("sid=%d", sid))
 				f := onAccept[ep.side][sid]
+				if _, replayed := mon.s[ep.side].replayedReset[sid]; f == nil && replayed {
+					// recorded finding KF6: a replayed reset request removed the new incarnation, whose next
+					// DATA chunk then created (and announced) the stream once more
+					w.violate("C14", "reset-by-replayed-request", "%s: stream %d was announced by AcceptStream a second time after a reset request whose sequence number this endpoint had already performed was delivered again", ep.name, sid)
+					return
+				}
 				if f == nil {
 					w.violate("C14", "unexpected-accept", "%s: AcceptStream returned stream %d although no new incarnation of it was opened by the peer", ep.name, sid)
 					return
@@ -137,6 +143,7 @@ func scenarioReset(w *world) {
 			rs.writeAfterClose = [2]*msgRec{}
 			for from := 0; from < 2; from++ {
 				d := &xferDir{sid: rs.sid, from: from, unordered: rs.unordered, relType: ReliabilityTypeReliable}
+				d.dcepTail = rs.unordered && tp.intn(2) == 0
 				n := tp.intn(8)
 				if thorough() {
 					n = tp.intn(40)
@@ -165,7 +172,7 @@ func scenarioReset(w *world) {
 				out := rs.dirs[side]  // this side sends
 				in := rs.dirs[1-side] // this side receives
 				body := func(s *Stream) {
-					ss := &simStream{ep: ep, sid: rs.sid, inc: inc, s: s, openSeq: w.evSeq}
+					ss := &simStream{ep: ep, sid: rs.sid, inc: inc, s: s, openSeq: w.evSeq, openAt: w.now()}
 					out.tx, in.rx = ss, ss
 					s.SetReliabilityParams(rs.unordered, ReliabilityTypeReliable, 0)
 					rs.openDone[side] = true
@@ -191,7 +198,9 @@ func scenarioReset(w *world) {
 											got++
 										}
 									}
-									if seq, ok := mon.s[side].replayedReset[rs.sid]; ok && seq >= ss.openSeq && (!in.writerDone || !rs.closed[1-side] || got != acc) {
+									// (the replayed request may have been read from the transport just before the new incarnation was obtained
+									// and be processed just after: same virtual instant)
+									if seq, ok := mon.s[side].replayedReset[rs.sid]; ok && (seq >= ss.openSeq || mon.s[side].replayedResetAt[rs.sid] >= ss.openAt) && (!in.writerDone || !rs.closed[1-side] || got != acc) {
 										w.violate("C14", "reset-by-replayed-request", "%s stream %d inc %d: reader got EOF (peer closed=%v, %d of %d messages read) after a reset request was delivered whose sequence number this endpoint had already performed", ep.name, rs.sid, inc, rs.closed[1-side], got, acc)
 									} else if !in.writerDone || !rs.closed[1-side] {
 										w.violate("C14", "eof-before-close", "%s stream %d inc %d: reader got EOF although the peer has not closed the stream", ep.name, rs.sid, inc)
@@ -209,13 +218,22 @@ func scenarioReset(w *world) {
 					})
 					// writer
 					for i, n := range out.sizes {
-						m := w.newMsg(ss, n, false)
+						// on an unordered stream the last messages before Close are sometimes data-channel control
+						// messages, which are ordered by exception: the end of the stream must come after them too
+						dcep := rs.unordered && out.dcepTail && i >= len(out.sizes)-2
+						if dcep && n < 8 {
+							n = 8 + n
+						}
+						m := w.newMsg(ss, n, dcep)
 						m.inc = inc
-						m.unordered = rs.unordered
-						x.index[m.ppi] = m
+						m.unordered = rs.unordered && !dcep
+						if dcep {
+							x.index[uint32(m.id)|0x80000000] = m
+						} else {
+							x.index[m.ppi] = m
+						}
 						out.msgs = append(out.msgs, m)
 						w.write(ss, m)
-						_ = i
 					}
 					out.writerDone = true
 					if side != rs.initiator {
